@@ -128,10 +128,42 @@ class IfMerge(ast.NodeTransformer):
         return node
 
 
+class Hoist(ast.NodeTransformer):
+    """`x = f(g(a), b)` / `return f(g(a), b)` -> `h = g(a)` + `x = f(h, b)`: the first argument, when it is itself a
+    call, is evaluated into a fresh local just before the statement (same evaluation order)."""
+
+    n = 0
+
+    def _block(self, stmts):
+        out = []
+        for st in stmts:
+            target = None
+            if isinstance(st, (ast.Assign, ast.Return, ast.Expr)) and isinstance(getattr(st, "value", None), ast.Call):
+                c = st.value
+                if c.args and isinstance(c.args[0], ast.Call) and not isinstance(c.func, ast.Call) and not any(isinstance(x, (ast.Lambda, ast.GeneratorExp, ast.ListComp, ast.NamedExpr, ast.Yield, ast.Await)) for x in ast.walk(c.func)):
+                    target = c
+            if target is not None and isinstance(target.func, (ast.Name, ast.Attribute)) and not any(isinstance(x, ast.Call) for x in ast.walk(target.func)):
+                Hoist.n += 1
+                nm = f"hoisted_{Hoist.n}"
+                out.append(ast.Assign(targets=[ast.Name(id=nm, ctx=ast.Store())], value=target.args[0], lineno=st.lineno, col_offset=st.col_offset))
+                target.args[0] = ast.Name(id=nm, ctx=ast.Load())
+            out.append(st)
+        return out
+
+    def generic_visit(self, node):
+        super().generic_visit(node)
+        if isinstance(node, (ast.FunctionDef, ast.AsyncFunctionDef, ast.If, ast.For, ast.While, ast.With, ast.Try)):
+            for fld in ("body", "orelse", "finalbody"):
+                b = getattr(node, fld, None)
+                if isinstance(b, list) and b and isinstance(b[0], ast.stmt):
+                    setattr(node, fld, self._block(b))
+        return node
+
+
 def transform_module(src, mode):
     if mode == "rename":
         return rename_module(src)
-    cls = {"ifswap": IfSwap, "ifsplit": IfSplit, "ifmerge": IfMerge}[mode]
+    cls = {"ifswap": IfSwap, "ifsplit": IfSplit, "ifmerge": IfMerge, "hoist": Hoist}[mode]
     cls.n = 0
     tree = cls().visit(ast.parse(src))
     ast.fix_missing_locations(tree)
